@@ -445,18 +445,24 @@ Proof.
   change macro_dict with
     [(Str "IRI", Some (Str "http://www.w3.org/ns/shacl#IRI"));
      (Str "LITERAL", Some (Str "http://www.w3.org/ns/shacl#Literal"));
-     (Str ".", Some (Str "http://www.w3.org/ns/shacl#BlankNode"));
-     (Str "BNode", @None str)].
-  cbn [dget]. rewrite K1, K4, K5, K2. reflexivity.
+     (Str ".", @None str);
+     (Str "BNode", Some (Str "http://www.w3.org/ns/shacl#BlankNode"));
+     (Str "NONLITERAL", Some (Str "http://www.w3.org/ns/shacl#BlankNodeOrIRI"))].
+  cbn [dget]. rewrite K1, K4, K5, K2, K3. reflexivity.
 Qed.
 
 Lemma value_views ns ty :
-  ns_ok ns = true -> (str_eqb ty (Str "IRI") || shape_ref ty || plain_iri ty) = true ->
+  ns_ok ns = true ->
+  (mem_str ty [Str "IRI"; Str "BNode"; Str "NONLITERAL"] || shape_ref ty || plain_iri ty) = true ->
   exists v r, tune_token ns ty = Some v /\ read_value (pm_of_ns ns) v = Some r /\
               add_node_type ty = Some (enc_restr r).
 Proof.
   intros Hok. rewrite !orb_true_iff. intros [[H|H]|H].
-  - apply str_eqb_eq in H. subst. exists (Str "IRI"), KindIri. repeat split.
+  - cbn [mem_str] in H. rewrite !orb_true_iff in H. destruct H as [H|[H|[H|H]]]; [| | |discriminate];
+      apply str_eqb_eq in H; subst.
+    + exists (Str "IRI"), KindIri. repeat split.
+    + exists (Str "BNode"), KindBnode. repeat split.
+    + exists (Str "NONLITERAL"), KindNonLiteral. repeat split.
   - apply shape_ref_form in H as [i ->]. exists (Str "@" ++ print_iri ns i), (Ref i).
     split; [apply tune_shape|]. split; [apply read_value_ref, Hok|].
     unfold add_node_type.
@@ -481,12 +487,26 @@ Proof.
   intros H. apply N.eqb_eq in H. subst. reflexivity.
 Qed.
 
-Lemma perm4 {A} (a b c d : A) : Permutation [a; b; c; d] [d; b; c; a].
+Lemma perm_ends {A} (x y l : list A) : Permutation (x ++ l ++ y) (y ++ l ++ x).
 Proof.
-  eapply perm_trans; [apply (Permutation_cons_append [b; c; d] a)|].
-  cbn. apply (Permutation_app_tail [a] (l := [b; c; d]) (l' := [d; b; c])).
-  apply Permutation_sym. apply (Permutation_cons_append [b; c] d).
+  eapply perm_trans; [apply Permutation_app_comm|].
+  pose proof (Permutation_app_tail x (Permutation_app_comm l y)) as H.
+  rewrite <- (app_assoc y l x) in H. exact H.
 Qed.
+
+Lemma step_generate_bnode st ty : step_arcs st ty (Str "_generate_bnode") = Some (Some []).
+Proof. reflexivity. Qed.
+Lemma step_bnode_property st ty : step_arcs st ty (Str "_add_bnode_property") = Some (Some property_shape_type).
+Proof. reflexivity. Qed.
+Lemma step_node_type st ty : step_arcs st ty (Str "_add_node_type") = Some (add_node_type ty).
+Proof. reflexivity. Qed.
+Lemma step_cardinality st ty :
+  step_arcs st ty (Str "_add_cardinality") = Some (add_cardinality (card_value (s_card st))).
+Proof. reflexivity. Qed.
+Lemma step_path st ty : step_arcs st ty (Str "_add_path") = Some (add_path (s_inv st) (s_prop st)).
+Proof. reflexivity. Qed.
+Lemma step_in_instance st ty : step_arcs st ty (Str "_add_in_instance") = Some (add_in_instance ty).
+Proof. reflexivity. Qed.
 
 (** ** the statement-level theorem *)
 Theorem views_agree ns tau st : C11_dom ns tau st = true ->
@@ -499,32 +519,46 @@ Proof.
   destruct (http_form _ Hp) as [Hpp Hgp].
   destruct (card_views _ Hcard) as [sc [Hrc Hac]].
   pose proof (tune_plain ns _ Hpp) as Htp.
+  assert (Hpath : add_path (s_inv st) (s_prop st) = Some (enc_path (s_inv st) (s_prop st))).
+  { unfold add_path, add_direct_path, add_inverse_path. rewrite Hgp. destruct (s_inv st); reflexivity. }
+  assert (Hsense : (if str_eqb (if s_inv st then c_INVERSE_SENSE_SHEXC else []) []
+                    then Some false
+                    else if str_eqb (if s_inv st then c_INVERSE_SENSE_SHEXC else []) (Str "^")
+                         then Some true else None) = Some (s_inv st)).
+  { destruct (s_inv st); reflexivity. }
   destruct (str_eqb (s_prop st) tau) eqn:Etau.
-  - (* instantiation constraint *)
-    rewrite !andb_true_iff in Hty. destruct Hty as [[Hinv Hc1] Hcls].
-    apply negb_true_iff in Hinv. apply card_eqb_eq in Hc1.
-    destruct (http_form _ Hcls) as [Hcp Hgc].
-    exists {| c_inv := false; c_pred := s_prop st; c_restr := ClassValue ty; c_min := 1; c_max := Some 1%N |}.
+  - (* instantiation constraint: path, cardinality, sh:in *)
+    destruct (http_form _ Hty) as [Hcp Hgc].
+    exists {| c_inv := s_inv st; c_pred := s_prop st; c_restr := ClassValue ty;
+              c_min := fst (card_range sc); c_max := snd (card_range sc) |}.
     eexists. split; [|split].
     + unfold shex_view, shexc_tokens, str_of_target_element.
-      rewrite Hch, Et, Htp, (tune_plain ns _ Hcp), Htau, Etau, Hinv, Hc1. cbn [t_sense t_pred t_value t_card].
-      unfold read_tc. rewrite read_iri_print, read_value_set by exact Hns. reflexivity.
-    + unfold shacl_arcs. rewrite Hch, Et, Etau. unfold add_direct_path, add_in_instance.
-      rewrite Hgp, Hgc. reflexivity.
-    + cbn. apply perm_skip. apply perm4.
-  - (* regular constraint *)
+      rewrite Hch, Et, Htp, (tune_plain ns _ Hcp), Htau, Etau. cbn [t_sense t_pred t_value t_card].
+      unfold read_tc. rewrite read_iri_print, read_value_set by exact Hns. rewrite Hrc, Hsense. reflexivity.
+    + unfold shacl_arcs. rewrite Hch, Et, Etau.
+      change shacl_instantiation_steps with
+        [Str "_generate_bnode"; Str "_add_bnode_property"; Str "_add_path"; Str "_add_cardinality";
+         Str "_add_in_instance"].
+      cbn [run_steps]. rewrite step_generate_bnode, step_bnode_property, step_path, step_cardinality, step_in_instance.
+      rewrite Hpath, Hac. unfold add_in_instance. rewrite Hgc. reflexivity.
+    + unfold enc_arcs. cbn [c_inv c_pred c_restr c_min c_max enc_restr rdf_list app property_shape_type].
+      apply perm_skip. exact (perm_ends _ [_] _).
+  - (* regular constraint: node type, cardinality, path *)
     destruct (value_views ns ty Hns Hty) as [v [r [Htv [Hrv Hnt]]]].
     exists {| c_inv := s_inv st; c_pred := s_prop st; c_restr := r;
               c_min := fst (card_range sc); c_max := snd (card_range sc) |}.
-    exists (enc_arcs {| c_inv := s_inv st; c_pred := s_prop st; c_restr := r;
-                        c_min := fst (card_range sc); c_max := snd (card_range sc) |}).
-    split; [|split; [|apply Permutation_refl]].
+    eexists. split; [|split].
     + unfold shex_view, shexc_tokens, str_of_target_element.
       rewrite Hch, Et, Htp, Htv, Htau, Etau. cbn [t_sense t_pred t_value t_card].
-      unfold read_tc. rewrite read_iri_print by exact Hns. rewrite Hrv, Hrc.
-      destruct (s_inv st); reflexivity.
-    + unfold shacl_arcs. rewrite Hch, Et, Etau, Hnt, Hac. unfold add_path, add_direct_path, add_inverse_path.
-      rewrite Hgp. destruct (s_inv st); reflexivity.
+      unfold read_tc. rewrite read_iri_print by exact Hns. rewrite Hrv, Hrc, Hsense. reflexivity.
+    + unfold shacl_arcs. rewrite Hch, Et, Etau.
+      change shacl_regular_steps with
+        [Str "_generate_bnode"; Str "_add_bnode_property"; Str "_add_node_type"; Str "_add_cardinality";
+         Str "_add_path"].
+      cbn [run_steps]. rewrite step_generate_bnode, step_bnode_property, step_node_type, step_cardinality, step_path.
+      rewrite Hnt, Hac, Hpath. reflexivity.
+    + unfold enc_arcs. cbn [c_inv c_pred c_restr c_min c_max app property_shape_type].
+      rewrite ?app_nil_r. apply Permutation_refl.
 Qed.
 
 (** ** lifting to shapes and documents *)
@@ -676,40 +710,4 @@ Corollary read_back ns tau st : C11_dom ns tau st = true ->
 Proof.
   intros H. destruct (views_agree ns tau st H) as [c [arcs [H1 [H2 H3]]]].
   exists c, (RBlank arcs). split; [exact H1|]. split; [apply shacl_view_arcs, H2 | apply dec_sound, H3].
-Qed.
-
-(** ** [C11_dom] leaves out exactly the four root causes *)
-Theorem dom_complete ns tau st :
-  stmt_wf ns tau st = true ->
-  rc_bnode tau st = false -> rc_nonliteral tau st = false ->
-  rc_tau_card tau st = false -> rc_tau_inverse tau st = false ->
-  C11_dom ns tau st = true.
-Proof.
-  unfold stmt_wf, C11_dom, rc_bnode, rc_nonliteral, rc_tau_card, rc_tau_inverse, is_tau, s_type.
-  intros H R1 R2 R3 R4. rewrite !andb_true_iff in H. destruct H as [[[[[H1 H2] H3] H4] H5] H6].
-  rewrite H1, H2, H3, H4, H5. cbn [andb].
-  destruct (s_types st) as [|ty [|ty2 tys]]; try discriminate. cbn [hd] in *.
-  destruct (str_eqb (s_prop st) tau); cbn [negb andb] in *.
-  - rewrite H6. apply negb_false_iff in R3. rewrite R3, R4. reflexivity.
-  - cbn [mem_str] in H6. rewrite R1, R2 in H6. rewrite !orb_false_r in H6. exact H6.
-Qed.
-
-Theorem dom_sound ns tau st : C11_dom ns tau st = true ->
-  stmt_wf ns tau st = true /\ rc_bnode tau st = false /\ rc_nonliteral tau st = false /\
-  rc_tau_card tau st = false /\ rc_tau_inverse tau st = false.
-Proof.
-  unfold stmt_wf, C11_dom, rc_bnode, rc_nonliteral, rc_tau_card, rc_tau_inverse, is_tau, s_type.
-  intros H. rewrite !andb_true_iff in H. destruct H as [[[[[H1 H2] H3] H4] H5] H6].
-  rewrite H1, H2, H3, H4, H5. cbn [andb].
-  destruct (s_types st) as [|ty [|ty2 tys]]; try discriminate. cbn [hd].
-  destruct (str_eqb (s_prop st) tau); cbn [negb andb].
-  - rewrite !andb_true_iff in H6. destruct H6 as [[A B] C]. apply negb_true_iff in A.
-    rewrite A, B, C. repeat split.
-  - rewrite !orb_true_iff in H6. destruct H6 as [[H|H]|H].
-    + apply str_eqb_eq in H. subst. repeat split.
-    + pose proof H as H'. apply shape_ref_form in H' as [i ->]. rewrite H.
-      cbn [mem_str]. rewrite orb_true_r. repeat split.
-    + rewrite H, !orb_true_r. unfold plain_iri in H. rewrite !andb_true_iff, !negb_true_iff in H.
-      destruct H as [_ Hk]. cbn [mem_str] in Hk. rewrite !orb_false_iff in Hk.
-      destruct Hk as [_ [K2 [K3 _]]]. rewrite K2, K3. repeat split.
 Qed.
